@@ -754,6 +754,54 @@ def check_respelled_shape(mname):
         _shape_type_check(m, got, "with txBox=%r" % spelling)
 
 
+def check_picture_mask(mname):
+    """Picture.auto_shape_type (the documented way to apply an auto-shape type as a picture's mask): every member
+    assigned is read back, on a plain picture and on one cropped to a freeform (a:custGeom, which the docs say reads
+    None), before and after save / re-open, and p:spPr keeps exactly one geometry element."""
+    import pptx
+    from lxml import etree
+    from pptx.enum.shapes import MSO_SHAPE
+
+    A = "{http://schemas.openxmlformats.org/drawingml/2006/main}"
+    m = getattr(MSO_SHAPE, mname)
+    prs = pptx.Presentation()
+    slide = prs.slides.add_slide(prs.slide_layouts[6])
+    img = os.path.join(core.REPO, "tests", "test_files", "python-icon.jpeg")
+    for state in ("plain", "freeform-cropped"):
+        with core.sut("C20:add_picture"):
+            pic = slide.shapes.add_picture(img, 100, 100)
+        spPr = pic._element.find(".//{http://schemas.openxmlformats.org/presentationml/2006/main}spPr")
+        if state == "freeform-cropped":
+            old = spPr.find(A + "prstGeom")
+            cust = etree.fromstring(
+                '<a:custGeom xmlns:a="%s"><a:avLst/><a:gdLst/><a:ahLst/><a:cxnLst/><a:rect l="0" t="0" r="r" b="b"/>'
+                '<a:pathLst><a:path w="10" h="10"><a:moveTo><a:pt x="0" y="0"/></a:moveTo><a:lnTo><a:pt x="10" y="0"/>'
+                '</a:lnTo><a:lnTo><a:pt x="5" y="10"/></a:lnTo><a:close/></a:path></a:pathLst></a:custGeom>' % A[1:-1])
+            spPr.replace(old, cust)
+            with core.sut("C20:picture-mask-read"):
+                before = pic.auto_shape_type
+            if before is not None:
+                raise Violation("C20:picture-mask:custom-geometry-not-None",
+                                "a picture cropped to a freeform reads auto_shape_type %r" % (before,))
+        with core.sut("C20:picture-mask-assign"):
+            pic.auto_shape_type = m
+        with core.sut("C20:picture-mask-read"):
+            got = slide.shapes[len(slide.shapes) - 1].auto_shape_type
+        _shape_type_check(m, got, "as the mask of a %s picture" % state)
+        geoms = [etree.QName(c).localname for c in spPr if etree.QName(c).localname in ("custGeom", "prstGeom")]
+        if geoms != ["prstGeom"]:
+            raise Violation("C20:picture-mask:geometry-elements",
+                            "%s picture given mask %s has geometry %r" % (state, mname, geoms))
+    buf = io.BytesIO()
+    with core.sut("C20:save"):
+        prs.save(buf)
+    with core.sut("C20:reopen"):
+        again = pptx.Presentation(io.BytesIO(buf.getvalue()))
+        gots = [sh.auto_shape_type for sh in again.slides[0].shapes]
+    for state, got in zip(("plain", "freeform-cropped"), gots):
+        _shape_type_check(m, got, "as the mask of a %s picture after save and re-open" % state)
+
+
 def shape_cases(tier):
     from pptx.enum.shapes import MSO_SHAPE
 
@@ -1115,7 +1163,9 @@ def run_job(job, seed, tier, rec, known):
         f += _tag(run_plain(check_chart_type_after_formatting, names, rec=rec, known=known), "chart-formatting")
         snames = [m.name for m in MSO_SHAPE if m.xml_value]
         f += _tag(run_plain(check_respelled_shape, snames, rec=rec, known=known), "respelled-shape")
-        rec.note_enum(len(names) + len(snames), len(done) + len(snames), sample=["respelled-chart", names[0]])
+        f += _tag(run_plain(check_picture_mask, snames, rec=rec, known=known), "picture-mask")
+        rec.cls(*["picture-mask"] * len(snames))
+        rec.note_enum(len(names) + 2 * len(snames), len(done) + 2 * len(snames), sample=["picture-mask", snames[7]])
         rec.cls("respelled:charts-with-default-valued-attributes=%d" % len(done))
         return f
     if k == "foreign-avlst":
@@ -1255,6 +1305,8 @@ def replay(case):
         return collect(check_chart_type_after_formatting, c)
     if kind == "respelled-shape":
         return collect(check_respelled_shape, c)
+    if kind == "picture-mask":
+        return collect(check_picture_mask, c)
     if kind == "api":
         return collect(check_api, c)
     if kind == "shape":
